@@ -1999,4 +1999,63 @@ class NativeHeaderRoundTrip(NativeCheck):
         return inp['header'].split('|')[0][:4] + str(inp['header'].count(' '))
 
 
-NATIVE = [NativeBookkeeping(), NativeWildcardMap(), NativeHeaderRoundTrip()]
+class NativeWildcardCommand(NativeCheck):
+    name = 'wildcard_through_the_command'
+    props = ('C18',)
+    functions = (f'{SPL}:PeptidePoolSplitter.__init__', f'{SPL}:PeptidePoolSplitter.create_wildcard_map')
+    bounded_for = ('wildcard entries of --order-source through the real splitFasta command (the splitter built the way the command builds it, real '
+                   'source names): a peptide goes to the database of the first order entry that matches its source set - "X" exactly {X}, "X-*" '
+                   'every set containing X - and keeps its own set otherwise')
+    bound = 'demo variant FASTA with the five demo GVFs, max-source-groups 3, 6 orders mixing plain names and X-* entries'
+    quick_budget_s = 60
+    thorough_budget_s = 120
+
+    def cases(self, rng, tier):
+        for order in ('gINDEL-*', 'circRNA,gINDEL-*', 'gINDEL-*,circRNA', 'RNAEditingSite,circRNA-*', 'gSNP,gINDEL,RNAEditingSite-*', 'Fusion,circRNA,gINDEL-*'):
+            yield dict(order_source=order)
+
+    def run(self, order):
+        import argparse, tempfile, shutil, os
+        from pathlib import Path
+        from moPepGen import cli
+        data = Path(os.environ.get('PYVC_REPO', '/repo')) / 'test' / 'files'
+        d = Path(tempfile.mkdtemp(prefix='verif_c18w_'))
+        try:
+            (d / 'split').mkdir()
+            gvfs = [data / 'vep/vep_gSNP.gvf', data / 'vep/vep_gINDEL.gvf', data / 'reditools/reditools.gvf', data / 'fusion/star_fusion.gvf', data / 'circRNA/circ_rna.gvf']
+            a = argparse.Namespace(command='splitFasta', gvf=gvfs, annotation_gtf=data / 'annotation.gtf', proteome_fasta=data / 'translate.fasta', reference_source=None,
+                                   index_dir=None, quiet=True, order_source=order, group_source=None, variant_peptides=data / 'peptides/variant.fasta',
+                                   novel_orf_peptides=None, alt_translation_peptides=None, max_source_groups=3, additional_split=None, output_prefix=d / 'split' / 'db')
+            cli.split_fasta(a)
+            out = {}
+            for f in sorted((d / 'split').glob('db_*.fasta')):
+                for h, s_ in _read_fasta(f):
+                    out[s_] = f.name[3:-6]
+            return out
+        finally:
+            shutil.rmtree(d, ignore_errors=True)
+
+    def check(self, inp):
+        base = self.run(None)                   # without an order every peptide sits in the database named after its best source set
+        got = self.run(inp['order_source'])
+        ents = [x.split('-') for x in inp['order_source'].split(',')]
+        for seq, own in base.items():
+            E = frozenset(own.split('-'))
+            want = None
+            for ent in ents:
+                if ent[-1] == '*' and frozenset(ent[:-1]) <= E:
+                    want = '-'.join(ent[:-1]) + '-ALL'
+                    break
+                if ent[-1] != '*' and frozenset(ent) == E:
+                    want = None
+                    break
+            if want is not None and got.get(seq) != want:
+                return dict(call=f"splitFasta --order-source {inp['order_source']}: peptide {seq} with sources {sorted(E)}", observed=got.get(seq), expected=want,
+                            signature='wildcard-entry-does-not-take-a-set-it-matches')
+        return None
+
+    def nontrivial(self, inp):
+        return str(inp)
+
+
+NATIVE = [NativeBookkeeping(), NativeWildcardMap(), NativeHeaderRoundTrip(), NativeWildcardCommand()]
